@@ -268,7 +268,7 @@ def admissible(sub, s, out, prefix="C15"):
     out.ratio("norm_excess/(eps*n)", max(ns / sub.delta - 1.0, 0.0) / (EPS * n))
     if ns > sub.delta * (1.0 + 1e3 * EPS * n):
         out.fail(prefix + ".radius/" + name, "%s returned a step of norm %.17g for a radius %.17g" % (name, ns, sub.delta),
-                 solver=name)
+                 solver=name, rel_excess=ns / sub.delta - 1.0)
         return False
     if name == "constrained":
         for i in range(sub.aub.shape[0]):
@@ -323,4 +323,22 @@ def run_case(spec):
     return out
 
 
-SIGNATURES = {}
+def sig_boundary_improvement_snap(spec, fail):
+    """KF-C15-1: the excess over the radius is tiny (<= 1e-6 relative), comes from the improvement of the step
+    on the trust-region boundary (improve_tcg=True: a coordinate that the rotation brings next to a bound is
+    snapped onto the bound and the other coordinates are not rescaled) and is absent with improve_tcg=False."""
+    d = fail.data or {}
+    if ".radius/" not in fail.clause or d.get("solver") not in ("tangential", "constrained"):
+        return False
+    sp = dec(spec)
+    if not sp.get("improve_tcg") or not (0.0 < d.get("rel_excess", 1.0) <= 1e-6):
+        return False
+    sub = Sub(dict(sp, improve_tcg=False))
+    try:
+        s0 = sub.call()
+    except BaseException:
+        return False
+    return bool(np.all(np.isfinite(s0)) and float(np.linalg.norm(s0)) <= sub.delta * (1.0 + 1e3 * EPS * sub.n))
+
+
+SIGNATURES = {"boundary_improvement_snap_norm_excess": sig_boundary_improvement_snap}
